@@ -1,6 +1,5 @@
-(* C02loop — loop-invariant code motion (Licm.licm) preserves the loop exactly on the target semantics when no
-   DIV / MOD is hoisted: same result kind, same value, same call trace, same trap, same fuel; and the statement is
-   false for a hoisted division (witness). *)
+(* C02loop — loop-invariant code motion (Licm.licm, the code after fix 3d66ed3) preserves the loop exactly on the
+   target semantics: same result kind, same value, same call trace, same trap, same fuel. *)
 From Coq Require Import ZArith NArith List Bool Lia.
 Import ListNotations.
 From SV Require Import Common.Int32 C02.Kernels C02deep.Syntax C02deep.Sem C02deep.Passes C02deep.ProofsSem
@@ -11,12 +10,13 @@ Open Scope Z_scope.
 Definition hoistable (st : stmt) (ninv : set) : bool :=
   match st with
   | SNot _ e | SPrim _ _ e => is_inv e ninv
-  | SBin _ _ e1 e2 => is_inv e1 ninv && is_inv e2 ninv
+  | SBin _ op e1 e2 => negb (is_divmod op) && is_inv e1 ninv && is_inv e2 ninv
+  | SStruct _ _ es => forallb (fun e => is_inv e ninv) es
   | _ => false
   end.
 Definition ninv_after (st : stmt) (ninv : set) : set :=
   match st with
-  | SNot x _ | SPrim x _ _ | SBin x _ _ _ => x :: ninv
+  | SNot x _ | SPrim x _ _ | SBin x _ _ _ | SStruct x _ _ | SLateDecl x | SLateAssign x _ => x :: ninv
   | SCall _ _ ret => opt_names ret ++ ninv
   | SIf _ _ _ fas => rev (map t_name fas) ++ ninv
   | SSIf _ _ _ | SBreak _ => ninv
@@ -24,7 +24,7 @@ Definition ninv_after (st : stmt) (ninv : set) : set :=
   end.
 Lemma licm_step_eq h i ninv st :
   licm_step (h, i, ninv) st = if hoistable st ninv then (st :: h, i, ninv) else (h, st :: i, ninv_after st ninv).
-Proof. destruct st; cbn; try reflexivity; repeat match goal with |- context [if ?c then _ else _] => destruct c end; reflexivity. Qed.
+Proof. unfold licm_step. destruct st; cbn; try reflexivity; repeat match goal with |- context [if ?c then _ else _] => destruct c end; reflexivity. Qed.
 
 Fixpoint split (ss : list stmt) (ninv : set) : list stmt * list stmt * set :=
   match ss with
@@ -44,7 +44,7 @@ Proof.
 Qed.
 Lemma licm_split lvs ss : licm lvs ss = split ss (rev (map t_name lvs)).
 Proof.
-  unfold licm. rewrite fold_split. destruct (split ss _) as [[h i] n]. now rewrite !app_nil_r, !rev_involutive.
+  unfold licm, licm_g. change (licm_step_g false) with licm_step. rewrite fold_split. destruct (split ss _) as [[h i] n]. now rewrite !app_nil_r, !rev_involutive.
 Qed.
 
 (* ------------------------------------------------------------------ pure statements *)
@@ -53,18 +53,20 @@ Definition pure_val (w : world) (en : env) (st : stmt) : option (name * Z) :=
   | SBin x op a b => match rt_binop op (eval w en a) (eval w en b) with Val v => Some (x, v) | TrapArith => None end
   | SNot x e => Some (x, Z.lxor (eval w en e) 1)
   | SPrim x p e => Some (x, w_prim w p (eval w en e))
+  | SStruct x tn es => Some (x, w_struct w tn (map (eval w en) es))
   | _ => None
   end.
 Definition operands (st : stmt) : list expr :=
-  match st with SBin _ _ a b => [a; b] | SNot _ e | SPrim _ _ e => [e] | _ => [] end.
+  match st with SBin _ _ a b => [a; b] | SNot _ e | SPrim _ _ e => [e] | SStruct _ _ es => es | _ => [] end.
 
 Lemma pure_val_ext w e1 e2 st :
   (forall a, In a (operands st) -> eval w e1 a = eval w e2 a) -> pure_val w e1 st = pure_val w e2 st.
 Proof.
-  destruct st as [x op a b|x a|x p a| | | | |]; cbn; intros H; try reflexivity.
+  destruct st as [x op a b|x a|x p a| | | | | |x tn es| |]; cbn; intros H; try reflexivity.
   - rewrite (H a), (H b) by auto. reflexivity.
   - rewrite (H a) by auto. reflexivity.
   - rewrite (H a) by auto. reflexivity.
+  - do 3 f_equal. apply map_ext_in. exact H.
 Qed.
 Lemma hoistable_defs st ninv : hoistable st ninv = true -> exists x, defs st = [x] /\ binders st = [x].
 Proof. destruct st; cbn; try discriminate; eauto. Qed.
@@ -72,6 +74,7 @@ Lemma pure_val_name w en st x v : pure_val w en st = Some (x, v) -> defs st = [x
 Proof.
   destruct st; cbn; try discriminate.
   - destruct (rt_binop _ _ _); [|discriminate]. now intros [= -> _].
+  - now intros [= -> _].
   - now intros [= -> _].
   - now intros [= -> _].
 Qed.
@@ -83,10 +86,10 @@ Proof.
   destruct st; cbn; try discriminate; intros _; try reflexivity.
   destruct (rt_binop _ _ _); reflexivity.
 Qed.
-Lemma pure_nodiv w en st ninv :
-  hoistable st ninv = true -> is_divmod_stmt st = false -> pure_val w en st <> None.
+Lemma pure_nodiv w en st ninv : hoistable st ninv = true -> pure_val w en st <> None.
 Proof.
-  destruct st; cbn; try discriminate; intros _ Hd; try discriminate.
+  destruct st; cbn; try discriminate; intros H; try discriminate.
+  apply andb_prop in H. destruct H as [H _]. apply andb_prop in H. destruct H as [H _].
   destruct op; cbn in *; try discriminate.
 Qed.
 
@@ -95,9 +98,11 @@ Lemma hoistable_operands st ninv a :
   hoistable st ninv = true -> In a (operands st) -> is_inv a ninv = true.
 Proof.
   destruct st; cbn; try discriminate; intros H Hi.
-  - apply andb_prop in H. destruct H. destruct Hi as [<-|[<-|[]]]; assumption.
+  - apply andb_prop in H. destruct H as [H H2]. apply andb_prop in H. destruct H as [_ H1].
+    destruct Hi as [<-|[<-|[]]]; assumption.
   - destruct Hi as [<-|[]]; assumption.
   - destruct Hi as [<-|[]]; assumption.
+  - rewrite forallb_forall in H. auto.
 Qed.
 Lemma scoped_operands S st ninv a :
   hoistable st ninv = true -> scoped S st = true -> In a (operands st) -> in_scope S a = true.
@@ -106,6 +111,7 @@ Proof.
   - apply andb_prop in H. destruct H. destruct Hi as [<-|[<-|[]]]; assumption.
   - destruct Hi as [<-|[]]; assumption.
   - destruct Hi as [<-|[]]; assumption.
+  - rewrite forallb_forall in H. auto.
 Qed.
 
 (* every name a kept statement puts in scope is recorded as not invariant *)
@@ -141,18 +147,6 @@ Section Licm.
   Variables (w : world) (fuel : nat).
   Notation exec := (exec Wrap w fuel).
   Notation exec_block := (exec_block Wrap w fuel).
-
-  Lemma hoisted_run ninvs hs : forall en tr,
-    Forall2 (fun st ninv => hoistable st ninv = true) hs ninvs ->
-    existsb is_divmod_stmt hs = false ->
-    exec_block hs en tr = RNext (henv w hs en) tr.
-  Proof.
-    revert ninvs. induction hs as [|st r IH]; intros ninvs en tr HF Hd; [reflexivity|].
-    inversion HF as [|? ninv ? nr Hh HF']; subst. cbn in Hd. apply orb_false_elim in Hd. destruct Hd as [Hd1 Hd2].
-    rewrite exec_block_cons, (exec_pure w fuel st ninv en tr Hh). cbn [henv].
-    destruct (pure_val w en st) as [b|] eqn:E; [|exfalso; eapply pure_nodiv; eauto].
-    eapply IH; eauto.
-  Qed.
 
   (* the value the hoisted run gives to the name of each hoisted statement is the value of the statement in the
      final environment: later hoisted statements do not rebind its operands or its name *)
@@ -355,16 +349,13 @@ Proof.
   - now rewrite Hs.
 Qed.
 
-Lemma exec_block_single m w fuel s en tr :
-  exec_block m w fuel [s] en tr = exec m w fuel s en tr.
-Proof. rewrite exec_block_cons. destruct (exec m w fuel s en tr); reflexivity. Qed.
 
 Lemma hoisted_run' w fuel hs : forall en tr,
-  Forall (fun st => exists nv, hoistable st nv = true) hs -> existsb is_divmod_stmt hs = false ->
+  Forall (fun st => exists nv, hoistable st nv = true) hs ->
   exec_block Wrap w fuel hs en tr = RNext (henv w hs en) tr.
 Proof.
-  induction hs as [|st r IH]; intros en tr F Hdiv; [reflexivity|].
-  inversion F as [|? ? [nv Hh] F']; subst. cbn in Hdiv. apply orb_false_elim in Hdiv. destruct Hdiv as [Hd1 Hd2].
+  induction hs as [|st r IH]; intros en tr F; [reflexivity|].
+  inversion F as [|? ? [nv Hh] F']; subst.
   rewrite exec_block_cons, (exec_pure w fuel st nv en tr Hh). cbn [henv].
   destruct (pure_val w en st) as [b|] eqn:E; [|exfalso; eapply pure_nodiv; eauto]. now apply IH.
 Qed.
@@ -375,14 +366,13 @@ Theorem licm_sound w fuel S lvs ss bc hoisted inner ninv en tr :
   scoped S (SWhile lvs ss bc) = true ->
   NoDup (binders (SWhile lvs ss bc)) ->
   (forall x, In x (binders (SWhile lvs ss bc)) -> ~ In x S) ->
-  existsb is_divmod_stmt hoisted = false ->
   match exec Wrap w fuel (SWhile lvs ss bc) en tr with
   | RNext e1 t => exists e1', exec_block Wrap w fuel (hoisted ++ [SWhile lvs inner bc]) en tr = RNext e1' t /\
                               agree w (opt_names bc ++ S) e1 e1'
   | o => exec_block Wrap w fuel (hoisted ++ [SWhile lvs inner bc]) en tr = o
   end.
 Proof.
-  intros Hl Hsc Hnd Hfr Hdiv. rewrite licm_split in Hl.
+  intros Hl Hsc Hnd Hfr. rewrite licm_split in Hl.
   rewrite scoped_SWhile in Hsc. apply andb_prop in Hsc. destruct Hsc as [Hsc Hl2]. apply andb_prop in Hsc. destruct Hsc as [Hl1 Hss].
   rewrite binders_SWhile in Hnd, Hfr. set (LN := map t_name lvs) in *.
   assert (HndB : NoDup (binders_l ss)) by (eapply nd_app_l; eapply nd_app_r; eauto).
@@ -397,8 +387,7 @@ Proof.
   rewrite exec_block_app, Hrun, exec_block_single.
   assert (Hfix : forall st, In st hoisted -> hfix w eh st).
   { apply henv_hfix; auto. intros st Hi'. rewrite Forall_forall in F. destruct (F st Hi') as [nv Hh].
-    eapply pure_nodiv; eauto. rewrite <- not_true_iff_false. intros Hc.
-    assert (existsb is_divmod_stmt hoisted = true) by (apply existsb_exists; eauto). congruence. }
+    eapply pure_nodiv; eauto. }
   assert (HnLN : forall y, In y HS -> ~ In y LN).
   { intros y Hy Hl'. unfold HS in Hy. rewrite in_app_iff in Hy. destruct Hy as [Hy|Hy].
     - apply Hn in Hy. apply (nd_app_disj _ _ y Hnd); auto. apply in_or_app. now left.
